@@ -277,6 +277,10 @@ namespace bluetoe {
 
                 if ( args.type == details::attribute_access_type::read )
                 {
+                    // no_read_access does not apply to notifications and indications
+                    if ( args.notification )
+                        return characteristic_value_read_access( args, std::true_type() );
+
                     return characteristic_value_read_access( args, std::integral_constant< bool, has_read_access >() );
                 }
                 else if ( args.type == details::attribute_access_type::write )
@@ -364,7 +368,7 @@ namespace bluetoe {
                 if ( security_result != details::attribute_access_result::success )
                     return security_result;
 
-                if ( !has_read_access )
+                if ( !has_read_access && !args.notification )
                     return details::attribute_access_result::read_not_permitted;
 
                 if ( args.type != details::attribute_access_type::read )
@@ -594,6 +598,10 @@ namespace bluetoe {
 
                     if ( args.type == attribute_access_type::read )
                     {
+                        // the read handler is still used to provide the value to notifications and indications
+                        if ( no_read && !args.notification )
+                            return attribute_access_result::read_not_permitted;
+
                         return static_cast< attribute_access_result >(
                             invoke_read_handler< read_handler_type >::template call_read_handler< Server >( args.buffer_offset, args.buffer_size, args.buffer, args.buffer_size, args.server ) );
                     }
